@@ -40,6 +40,15 @@ Oracle, when `blocking_flush` returned true (otherwise the scenario is inconclus
 9. retry-budget sequences: a batch that fails on every attempt is given up, and the next batch - same
    signal or another one, afterwards or meanwhile - that fails once is sent again and acknowledged.
 
+11. gRPC: only `grpc-status: 0` acknowledges. A response that begins (`200` HEADERS, with or without the response
+   message) and then breaks or ends before any `grpc-status` - RST_STREAM with a real HTTP/2 error code, the
+   TCP connection reset / closed mid-response, END_STREAM on an empty DATA frame without trailers,
+   RST_STREAM(NO_ERROR) (which the HTTP client turns into a clean end) - or that carries a `grpc-status` which
+   is not a number (trailers or trailers-only) is a failed request: rules 1, 3 and 9 apply to it
+   (`...:after=reset-after-headers`, `connection-dropped-after-headers`, `no-grpc-status`,
+   `unreadable-grpc-status`). These kinds are in the random alphabet, in the systematic walk, in the
+   retry-budget family, and have a directed walk of their own (`generate_after_headers`).
+
 10. a flush over several signals while one of them cannot deliver: `blocking_flush(T)` with a short T
    inside the outage may return false (correct); if it returns true, every event accepted before it -
    on every signal - is already in an acknowledged request.
@@ -168,18 +177,32 @@ struct Opts {
     max_requests: usize,
 }
 
+/// HTTP/2 error codes used for "RST_STREAM after the response HEADERS": INTERNAL_ERROR, CANCEL,
+/// ENHANCE_YOUR_CALM, PROTOCOL_ERROR, and NO_ERROR - which an HTTP client reads as a clean end of the
+/// response, so that the response simply ends without any grpc-status (class `no-grpc-status`).
+const AFTER_HEADERS_RESET_CODES: [u32; 5] = [2, 8, 11, 1, 0];
+
 fn gen_fault(g: &mut Rng, transport: Transport, stalls_left: &mut u32) -> Decision {
     loop {
         let d = match g.below(6) {
             0 | 1 => {
                 if transport == Transport::Grpc {
-                    match g.below(4) {
+                    match g.below(9) {
                         // the status in a real trailers frame
                         0 => Decision::GrpcStatus(*g.pick(&[1u32, 2, 4, 8, 13, 14]), GrpcForm::Trailers),
                         // a trailers-only response: the status sits in the one and only headers frame
                         1 | 2 => Decision::GrpcStatus(*g.pick(&[8u32, 14]), GrpcForm::TrailersOnly),
                         // something in between (a proxy) answers with a plain non-2xx status
-                        _ => Decision::Status(*g.pick(&[502u16, 503])),
+                        3 => Decision::Status(*g.pick(&[502u16, 503])),
+                        // the response begins (200 HEADERS, maybe the message) and then breaks before any
+                        // grpc-status: the stream is reset with a real error code ...
+                        4 | 5 => Decision::AfterHeaders(HeadThen::Reset(*g.pick(&AFTER_HEADERS_RESET_CODES)), g.bool()),
+                        // ... or the connection goes away
+                        6 => Decision::AfterHeaders(HeadThen::DropConnection { reset: g.bool() }, g.bool()),
+                        // ... or the stream just ends: END_STREAM on an empty DATA frame, no trailers, no status
+                        7 => Decision::AfterHeaders(HeadThen::EndStream, g.bool()),
+                        // a status that is there but is not a number
+                        _ => Decision::GrpcStatusUnreadable(if g.bool() { GrpcForm::Trailers } else { GrpcForm::TrailersOnly }, g.below(4) as u8),
                     }
                 } else {
                     Decision::Status(*g.pick(&[301u16, 400, 404, 429, 500, 502, 503]))
@@ -251,8 +274,11 @@ fn generate(seed: u64, case: u64, o: &Opts) -> Scenario {
         let mut script = Vec::new();
         for _ in 0..10 {
             if faults < max_faults && g.chance(9, 20) {
-                script.push(gen_fault(&mut g, transport, &mut stalls_left));
-                faults += 1;
+                let d = gen_fault(&mut g, transport, &mut stalls_left);
+                // a connection that dies mid-response costs the emitter a second, invisible attempt (on the dead
+                // cached connection): it counts double towards what one batch may be asked to survive
+                faults += 1 + d.hidden_attempts() as u64;
+                script.push(d);
             } else if transport != Transport::Grpc && g.chance(1, 6) {
                 script.push(Decision::Ack(*g.pick(&[202u16, 204])));
             } else {
@@ -279,6 +305,16 @@ fn generate(seed: u64, case: u64, o: &Opts) -> Scenario {
                     // answered normally, then the established connection is closed / reset
                     Decision::AckThenDrop { reset: false },
                     Decision::AckThenDrop { reset: true },
+                    // 200 HEADERS, then the response breaks before any grpc-status
+                    Decision::AfterHeaders(HeadThen::Reset(2), false),
+                    Decision::AfterHeaders(HeadThen::DropConnection { reset: true }, false),
+                    Decision::AfterHeaders(HeadThen::Reset(8), true),
+                    Decision::AfterHeaders(HeadThen::DropConnection { reset: false }, true),
+                    // ... or ends without one; or the status is not a number
+                    Decision::AfterHeaders(HeadThen::EndStream, true),
+                    Decision::GrpcStatusUnreadable(GrpcForm::Trailers, 0),
+                    Decision::AfterHeaders(HeadThen::Reset(0), false),
+                    Decision::GrpcStatusUnreadable(GrpcForm::TrailersOnly, 1),
                 ]
             } else {
                 &[
@@ -321,6 +357,12 @@ fn generate(seed: u64, case: u64, o: &Opts) -> Scenario {
 
     // the burst: sizes such that the busiest signal spans `target` requests
     let target = 1 + g.usize(o.max_requests);
+    let events = gen_burst(&mut g, case, subset, target);
+    Scenario { seed, case, transport, gzip, subset, dead, late, scripts, target_requests: target, events }
+}
+
+/// The burst of one scenario: payload sizes such that the busiest signal's batch spans `target` requests.
+fn gen_burst(g: &mut Rng, case: u64, subset: u8, target: usize) -> Vec<Ev> {
     let kinds: Vec<EvKind> = [EvKind::Log, EvKind::Span, EvKind::Metric].into_iter().filter(|k| expected_signal(*k, subset).is_some()).collect();
     let mut events = Vec::new();
     let mut per_signal = [0usize; 3];
@@ -345,7 +387,73 @@ fn generate(seed: u64, case: u64, o: &Opts) -> Scenario {
             break;
         }
     }
-    Scenario { seed, case, transport, gzip, subset, dead, late, scripts, target_requests: target, events }
+    events
+}
+
+/// Directed walk over gRPC responses that begin and never acknowledge: the collector reads the whole request,
+/// sends the `200` HEADERS (every other time a complete response message as well) and THEN (a) resets the
+/// stream with a real HTTP/2 error code, (b) drops the TCP connection, (c) ends the stream without any
+/// `grpc-status` (END_STREAM on an empty DATA frame; RST_STREAM(NO_ERROR), which the client reads as a clean
+/// end) - or it answers completely with a `grpc-status` that is not a number (in the trailers / in a
+/// trailers-only response). Fault kind x first / second request after the primer (the second one belongs to a
+/// batch that is split over several requests, the first of which was acknowledged) are enumerated; victim
+/// signal, signal subset, gzip and burst sizes rotate with the case and the seed. Judged by `run` like every
+/// other scenario.
+const AFTER_HEADERS_CASE_BASE: u64 = 1_000_000;
+
+fn after_headers_kinds() -> Vec<Decision> {
+    let mut v = Vec::new();
+    for msg in [false, true] {
+        for how in [
+            HeadThen::Reset(2),
+            HeadThen::DropConnection { reset: true },
+            HeadThen::EndStream,
+            HeadThen::Reset(8),
+            HeadThen::DropConnection { reset: false },
+            HeadThen::Reset(0),
+            HeadThen::Reset(11),
+            HeadThen::Reset(1),
+        ] {
+            v.push(Decision::AfterHeaders(how, msg));
+        }
+        v.push(Decision::GrpcStatusUnreadable(GrpcForm::Trailers, if msg { 0 } else { 1 }));
+        v.push(Decision::GrpcStatusUnreadable(GrpcForm::TrailersOnly, if msg { 2 } else { 3 }));
+    }
+    v
+}
+
+fn generate_after_headers(seed: u64, i: u64, o: &Opts) -> Scenario {
+    let case = AFTER_HEADERS_CASE_BASE + i;
+    let mut g = Rng::stream(seed, &[12, 5, i]);
+    let kinds = after_headers_kinds();
+    let n_kinds = kinds.len() as u64;
+    let fault = kinds[(i % n_kinds) as usize];
+    let at = (i / n_kinds % 2) as usize;
+    let gzip = (i / 3 + seed) % 2 == 0;
+    let subset = ((i * 3 + i / (2 * n_kinds) + seed) % 7 + 1) as u8;
+    let configured: Vec<Signal> = Signal::ALL.into_iter().filter(|s| subset & s.bit() != 0).collect();
+    let victim = configured[((i / 2 + seed) as usize) % configured.len()];
+    let mut scripts: [Vec<Decision>; 3] = [vec![], vec![], vec![]];
+    let mut script = vec![Decision::Ack(200); at];
+    script.push(fault);
+    // sometimes the retry fails once more, another way
+    if g.chance(1, 4) {
+        script.push(*g.pick(&kinds));
+    }
+    scripts[sidx(victim)] = script;
+    // a second request on the victim needs a batch that is split
+    let target = if at == 1 { 2 + g.usize(o.max_requests.saturating_sub(1).max(1)) } else { 1 + g.usize(o.max_requests) };
+    let mut events = gen_burst(&mut g, case, subset, target);
+    // the victim must be the busiest signal when its second request matters: give it the big events
+    if at == 1 {
+        let victim_kind = kind_for(victim);
+        for ev in events.iter_mut() {
+            if ev.pad > 200 && expected_signal(ev.kind, subset) != Some(victim) {
+                ev.kind = victim_kind;
+            }
+        }
+    }
+    Scenario { seed, case, transport: Transport::Grpc, gzip, subset, dead: None, late: None, scripts, target_requests: target, events }
 }
 
 fn emit_ev(otlp: &emit_otlp::Otlp, ev: &Ev, pad_src: &str) {
@@ -401,6 +509,13 @@ fn fault_classes(records: &[Record], s: Signal) -> String {
     }
 }
 
+/// Failed attempts on an endpoint as far as the collector can tell: its unacknowledged requests plus the
+/// attempts a fault costs the emitter out of the collector's sight (a connection that died mid-response or
+/// while idle fails the next attempt on the cached connection before a fresh one is opened).
+fn failed_attempts(records: &[Record], s: Signal) -> usize {
+    records.iter().filter(|r| r.endpoint == s).map(|r| usize::from(!r.acked()) + r.decision.hidden_attempts()).sum()
+}
+
 /// A request that hangs (at any phase) and is not attempted again although the reference emitter - same
 /// process, same hooked request timeout, its collector stalls everything - has begun `STALL_K` further
 /// attempts since. Logical progress, not a deadline: each of those attempts is one elapsed request timeout.
@@ -410,7 +525,7 @@ fn never_retried<'a>(records: &'a [Record], metronome: &[Record]) -> Option<(&'a
         if records.iter().any(|n| n.endpoint == rec.endpoint && n.seq > rec.seq) {
             continue;
         }
-        if records.iter().filter(|n| n.endpoint == rec.endpoint && !n.acked()).count() > 9 {
+        if failed_attempts(records, rec.endpoint) > 9 {
             continue;
         }
         let m = metronome.iter().filter(|a| a.received > t0).count();
@@ -750,6 +865,19 @@ fn run(r: &mut Report, sc: &Scenario) {
     for rec in records.iter().filter(|r| r.decision.is_ack_then_close()) {
         r.observe(&format!("acknowledged-then-closed:{}", rec.decision.name()), 1);
     }
+    for rec in records.iter().filter(|r| r.decision.is_after_headers() || matches!(r.decision, Decision::GrpcStatusUnreadable(..))) {
+        // which of the new kinds, and did the response really begin before it broke?
+        r.observe(&format!("grpc-after-headers:hit:{}", rec.decision.name()), 1);
+        if rec.partial_written.is_some() || rec.responded.is_some() {
+            r.observe("grpc-after-headers:response-headers-were-sent-before-the-failure", 1);
+        }
+        if records.iter().any(|n| n.endpoint == rec.endpoint && n.seq > rec.seq && vidsets.get(&n.idx).is_some() && vidsets.get(&n.idx) == vidsets.get(&rec.idx)) {
+            r.observe("grpc-after-headers:sent-again-with-the-same-events", 1);
+        }
+        if rec.decision.breaks_connection() && records.iter().any(|n| n.endpoint == rec.endpoint && n.seq > rec.seq && n.conn != rec.conn) {
+            r.observe("grpc-after-headers:next-request-on-a-fresh-connection", 1);
+        }
+    }
     for rec in records.iter().filter(|r| r.decision.is_fault()) {
         r.observe(&format!("fault-hit:{}", rec.decision.class()), 1);
         if rec.wire == Wire::Grpc {
@@ -815,7 +943,7 @@ fn run(r: &mut Report, sc: &Scenario) {
         let mut blocked = None;
         // a healthy signal that ran out of its own retry budget (spontaneous failures) stops trying:
         // silence is then no sign of being blocked
-        let healthy_gave_up = live.iter().any(|s| records.iter().filter(|r| r.endpoint == *s && !r.acked()).count() > 9);
+        let healthy_gave_up = live.iter().any(|s| failed_attempts(&records, *s) > 9);
         if healthy_gave_up {
             r.observe("outage-scenarios-not-judged-healthy-signal-exhausted-retries", 1);
         }
@@ -913,7 +1041,7 @@ fn run(r: &mut Report, sc: &Scenario) {
         }
         let mut on_ep: Vec<&Record> = records.iter().filter(|r| r.endpoint == s).collect();
         on_ep.sort_by_key(|r| r.seq);
-        if on_ep.iter().filter(|r| !r.acked()).count() > 9 {
+        if failed_attempts(&records, s) > 9 {
             // beyond the emitter's retry budget: giving up is C08's business
             continue;
         }
@@ -1070,7 +1198,7 @@ fn run(r: &mut Report, sc: &Scenario) {
         }
         let n_acked = acked_in.get(&ev.vid).map(|v| v.len()).unwrap_or(0);
         let n_read = read_in.get(&ev.vid).copied().unwrap_or(0);
-        let failures_on_sig = records.iter().filter(|r| r.endpoint == sig && !r.acked()).count();
+        let failures_on_sig = failed_attempts(&records, sig);
         if n_acked == 0 && failures_on_sig <= 9 {
             let late_ack = records.iter().any(|rec| rec.acked() && vidsets.get(&rec.idx).map(|s| s.contains(&ev.vid)).unwrap_or(false));
             // the last request that carried it, if any, tells what went wrong
@@ -1156,7 +1284,18 @@ fn run_budget(r: &mut Report, seed: u64, case: u64, thorough: bool) {
     let y = if layout == "same-signal" { x } else { Signal::ALL[((case / 9 + 1 + case / 27 % 2) % 3) as usize] };
     let subset = x.bit() | y.bit() | if g.chance(1, 3) { 7 } else { 0 };
     let cheap: Vec<Decision> = if grpc {
-        vec![Decision::GrpcStatus(14, GrpcForm::Trailers), Decision::GrpcStatus(14, GrpcForm::TrailersOnly), Decision::Status(503), Decision::DropOnAccept, Decision::DropBeforeBody, Decision::DropAfterRead]
+        vec![
+            Decision::GrpcStatus(14, GrpcForm::Trailers),
+            Decision::GrpcStatus(14, GrpcForm::TrailersOnly),
+            Decision::Status(503),
+            Decision::DropOnAccept,
+            Decision::DropBeforeBody,
+            Decision::DropAfterRead,
+            Decision::AfterHeaders(HeadThen::Reset(2), false),
+            Decision::AfterHeaders(HeadThen::DropConnection { reset: true }, true),
+            Decision::AfterHeaders(HeadThen::EndStream, false),
+            Decision::GrpcStatusUnreadable(GrpcForm::Trailers, 0),
+        ]
     } else {
         vec![Decision::Status(503), Decision::Status(429), Decision::DropOnAccept, Decision::DropBeforeBody, Decision::DropAfterRead, Decision::StallAt(Phase::AfterHeaders, 503)]
     };
@@ -1520,7 +1659,7 @@ fn main() {
             std::process::exit(r.finish());
         }
         for i in 0..3 {
-            let sc = generate(s, c, &opts);
+            let sc = if c >= AFTER_HEADERS_CASE_BASE { generate_after_headers(s, c - AFTER_HEADERS_CASE_BASE, &opts) } else { generate(s, c, &opts) };
             run(&mut r, &sc);
             r.nontrivial(&("replay-run", i));
         }
@@ -1529,21 +1668,29 @@ fn main() {
     }
 
     let section = args.get("section").unwrap_or("all").to_string();
-    let n = if section == "budget" || section == "outage" { 0 } else { args.n(210, 8064) };
+    let only = |name: &str| section == "all" || section == name;
+    let n = if only("main") { args.n(210, 8064) } else { 0 };
     spread(&mut r, &args, n, |i, r| {
         let sc = generate(seed, i, &opts);
         run(r, &sc);
     });
     judge_ack_then_close(&mut r, 4);
+    // gRPC: the response began (200 HEADERS) and then broke or ended before any grpc-status, or carried a status
+    // that is not a number - 20 kinds x first / second request after the primer = 40 per round
+    let n_after_headers = if only("after-headers") { args.n(40, 800) } else { 0 };
+    spread(&mut r, &args, n_after_headers, |i, r| {
+        let sc = generate_after_headers(seed, i, &opts);
+        run(r, &sc);
+    });
     r.set("main_section_wall_s", json!(r.elapsed_s()));
     // retry-budget sequences (3 transports x 3 layouts x 3 signals for the failing batch, every failure
     // kind for the batch that follows)
     let thorough = args.thorough();
-    let n_budget = if section == "main" || section == "outage" { 0 } else { args.n(54, 810) };
+    let n_budget = if only("budget") { args.n(54, 810) } else { 0 };
     spread(&mut r, &args, n_budget, |i, r| run_budget(r, seed, i, thorough));
     // a flush over several signals while one of them cannot deliver (9 subset/position pairs x idle/busy per
     // round of 18; outage mode and transport rotate with the case and the seed)
-    let n_outage = if section == "main" || section == "budget" { 0 } else { args.n(18, 324) };
+    let n_outage = if only("outage") { args.n(18, 324) } else { 0 };
     spread(&mut r, &args, n_outage, |i, r| run_outage_flush(r, seed, i, divisor, timeout_ms));
     let inconclusive = r.observed.get("scenarios-inconclusive").copied().unwrap_or(0);
     if inconclusive * 5 > n {
